@@ -1077,18 +1077,18 @@ func nbtDocs(o *hx.Out) {
 // outerE: the same shape without the Marshaler fields (RawMessage, *dynbt.Value write their own bytes in one call
 // and are outside the tree universe of the writer model)
 type outerE struct {
-	A   int8           `nbt:"a"`
-	B   int16          `nbt:"b"`
-	F   float32        `nbt:"f"`
-	D   float64        `nbt:"d"`
-	In  inner          `nbt:"in"`
-	Ins []inner        `nbt:"ins"`
-	By  []byte         `nbt:"by"`
-	Is  []int32        `nbt:"is"`
-	Any any            `nbt:"any"`
-	U   uint16         `nbt:"u"`
-	Bo  bool           `nbt:"bo"`
-	Ls  [][]int16      `nbt:"ls"`
+	A   int8      `nbt:"a"`
+	B   int16     `nbt:"b"`
+	F   float32   `nbt:"f"`
+	D   float64   `nbt:"d"`
+	In  inner     `nbt:"in"`
+	Ins []inner   `nbt:"ins"`
+	By  []byte    `nbt:"by"`
+	Is  []int32   `nbt:"is"`
+	Any any       `nbt:"any"`
+	U   uint16    `nbt:"u"`
+	Bo  bool      `nbt:"bo"`
+	Ls  [][]int16 `nbt:"ls"`
 }
 
 func genOuterE(r *hx.Rng) outerE {
